@@ -160,6 +160,30 @@ Theorem C15_shutdown_overlap_refuted : exists sched s b c,
 Proof. exact shutdown_overlap_refuted. Qed.
 Print Assumptions C15_shutdown_overlap_refuted.
 
+(* The pid file.  In the property's own domain (any interleaving of starts and SIGKILLs after any history that ends
+   with no daemon running) a daemon at service still has the pid file it wrote: the pid name leads to a file whose
+   content is this daemon. *)
+Theorem C15_pidfile_kept : forall hist s0 sched s p,
+  run init hist = Some s0 -> quiet s0 -> starts_and_crashes sched = true -> run s0 sched = Some s ->
+  at_serve s p = true -> has_pidfile s p = true.
+Proof. exact pidfile_kept. Qed.
+Print Assumptions C15_pidfile_kept.
+
+(* Finding F-C15-pidfile-late-unlink.  The faithful model of the unchanged code loses that invariant when a CLEAN stop
+   overlaps a start, although every process follows the lock protocol: witness late_unlink_sched 0 1 (A serves and is
+   told to stop; sock_destroy runs to its end: unlink socket, close, unlink lock file, close the lock descriptor = lock
+   released; B starts without --force: new lock file, F_SETLK, bind, unlinks A's pid file, writes its own, serves; A
+   goes on: unlink seed, open, write, and — destroy_conf (conf, 1), the last thing it does — unlink (pid file) by
+   name: B's; A exits 0).  B is the one live daemon, holds the lock of the named lock file, listens on the named
+   socket, and has no pid file. *)
+Theorem C15_pidfile_late_unlink_refuted : exists sched s a b,
+  run init sched = Some s /\ a <> b /\ st (procs s a) = Exited /\
+  at_serve s b = true /\ holder s b /\
+  (exists j, names s NSock = Some j /\ listener s j = Some b /\ sockfd (procs s b) = Some j) /\
+  names s NPid = None /\ has_pidfile s b = false /\ serving s b = false.
+Proof. exact pidfile_late_unlink_refuted. Qed.
+Print Assumptions C15_pidfile_late_unlink_refuted.
+
 Theorem C15_single_holder_needs_no_clean_stop :
   ~ (forall sched s, run init sched = Some s -> forall p q, past_setlk s p -> past_setlk s q -> p = q).
 Proof. exact single_holder_needs_no_clean_stop. Qed.
